@@ -1,9 +1,10 @@
 #!/bin/sh
-# usage: tools/cq.sh <prop> [extra props]  - queue confirmation of both seeds of an agent (serialised with flock)
-P=$1; shift
+# usage: tools/cq.sh <worktree name, e.g. C05 or C05b> [extra props]  - queue confirmation of the seeds of an agent (serialised with flock)
+W=$1; shift
+P=$(echo $W | cut -c1-3)
 mkdir -p /tmp/cflogs
-for k in 1 2; do
-  if [ -f /tmp/wt/$P/OUT/$k/patch.diff ]; then
-    ( flock /tmp/cf.lock python3 /verif/tools/confirm_seed.py /tmp/wt/$P/OUT/$k $P-$k $P "$@" > /tmp/cflogs/$P-$k.json 2>&1 ) &
+for k in 1 2 3; do
+  if [ -f /tmp/wt/$W/OUT/$k/patch.diff ]; then
+    ( flock /tmp/cf.lock python3 /verif/tools/confirm_seed.py /tmp/wt/$W/OUT/$k $W-$k $P "$@" > /tmp/cflogs/$W-$k.json 2>&1 ) &
   fi
 done
